@@ -185,7 +185,7 @@ func c03(r *Report) {
 					continue
 				}
 				for _, t := range tests {
-					classes, n, ok := returnClassesFrom(t.NonNil, 0, 4000)
+					classes, n, ok := returnClassesFromEdge(t.If.Block(), t.NonNil, 0, 4000)
 					r.Paths += n
 					good := ok && len(classes) > 0
 					for cl := range classes {
